@@ -72,16 +72,28 @@ func main() {
 	goos := flag.String("goos", "", "GOOS override for the load")
 	flag.Parse()
 
-	pd := props[*prop]
-	if pd == nil {
-		fmt.Fprintf(os.Stderr, "unknown property %q\n", *prop)
-		os.Exit(2)
+	ids := []string{*prop}
+	if *prop == "all" {
+		ids = nil
+		for id := range props {
+			if id != "DBG" {
+				ids = append(ids, id)
+			}
+		}
+		sort.Strings(ids)
+	} else if strings.Contains(*prop, ",") {
+		ids = strings.Split(*prop, ",")
+	}
+	for _, id := range ids {
+		if props[id] == nil {
+			fmt.Fprintf(os.Stderr, "unknown property %q\n", id)
+			os.Exit(2)
+		}
 	}
 	seed := 0
 	if s := os.Getenv("VERIF_SEED"); s != "" {
 		seed, _ = strconv.Atoi(s)
 	}
-	start := time.Now()
 	abs, _ := filepath.Abs(*repo)
 	var env []string
 	if *goarch != "" {
@@ -90,7 +102,35 @@ func main() {
 	if *goos != "" {
 		env = append(env, "GOOS="+*goos)
 	}
+	loadStart := time.Now()
+	var p *Prog
+	var loadErr error
+	func() {
+		defer func() {
+			if x := recover(); x != nil {
+				loadErr = fmt.Errorf("loader panicked: %v", x)
+			}
+		}()
+		p, loadErr = Load(abs, env)
+	}()
+	if p != nil {
+		p.useCHA = *useCHA
+	}
+	loadDur := time.Since(loadStart)
+	exit := 0
+	for _, id := range ids {
+		if runOne(props[id], p, loadErr, loadDur, *tier, *verif, *noEv, *jsonOut, seed, len(ids) > 1) {
+			exit = 1
+		}
+	}
+	os.Exit(exit)
+}
 
+// runOne runs one property on the loaded program; returns true when the property fails.
+func runOne(pd *propDef, p *Prog, loadErr error, loadDur time.Duration, tier, verif string, noEv bool, jsonOut string, seed int, multi bool) bool {
+	start := time.Now().Add(-loadDur)
+	uniqCount = map[string]int{}
+	ef0count = map[string]int{}
 	rep := NewReport(pd.id, nil)
 	func() {
 		defer func() {
@@ -98,12 +138,10 @@ func main() {
 				rep.Missing("analyser", "analyser/panic", fmt.Sprintf("analyser panicked: %v\n%s", x, debug.Stack()))
 			}
 		}()
-		p, err := Load(abs, env)
-		if err != nil {
-			rep.Missing("load", "load/"+*prop, err.Error())
+		if loadErr != nil {
+			rep.Missing("load", "load/"+pd.id, loadErr.Error())
 			return
 		}
-		p.useCHA = *useCHA
 		rep.P = p
 		pd.run(rep)
 	}()
@@ -119,7 +157,7 @@ func main() {
 		}
 	}
 
-	known := loadKnown(*verif)
+	known := loadKnown(verif)
 	sort.SliceStable(rep.Obls, func(i, j int) bool {
 		if rep.Obls[i].Rule != rep.Obls[j].Rule {
 			return rep.Obls[i].Rule < rep.Obls[j].Rule
@@ -157,7 +195,7 @@ func main() {
 
 	// human-readable summary
 	fmt.Printf("== %s tier=%s packages=%d functions=%d obligations=%d discharged=%d failing=%d known=%d (%.1fs)\n",
-		pd.id, *tier, progPkgs(rep.P), len(rep.Funcs), len(rep.Obls), discharged, len(failing), len(knownMatched), time.Since(start).Seconds())
+		pd.id, tier, progPkgs(rep.P), len(rep.Funcs), len(rep.Obls), discharged, len(failing), len(knownMatched), time.Since(start).Seconds())
 	rules := make([]string, 0, len(rep.RuleText))
 	for r := range rep.RuleText {
 		rules = append(rules, r)
@@ -175,21 +213,21 @@ func main() {
 		fmt.Printf("   note: %s\n", n)
 	}
 
-	if *jsonOut != "" {
+	if jsonOut != "" {
 		b, _ := json.MarshalIndent(rep.Obls, "", " ")
-		_ = os.WriteFile(*jsonOut, b, 0644)
+		_ = os.WriteFile(jsonOut, b, 0644)
 	}
 
 	for _, i := range failing {
 		o := rep.Obls[i]
 		h := sha1.Sum([]byte(o.Rule + "|" + o.Key))
 		name := fmt.Sprintf("%s-%s-%x.json", pd.id, sanitize(o.Rule), h[:4])
-		path := filepath.Join(*verif, "replay", name)
-		if !*noEv {
+		path := filepath.Join(verif, "replay", name)
+		if !noEv {
 			_ = os.MkdirAll(filepath.Dir(path), 0755)
 			b, _ := json.MarshalIndent(map[string]any{
 				"property": pd.id, "rule": o.Rule, "rule_text": rep.RuleText[o.Rule], "key": o.Key,
-				"verdict": o.Verdict, "pos": o.Pos, "detail": o.Detail, "tier": *tier,
+				"verdict": o.Verdict, "pos": o.Pos, "detail": o.Detail, "tier": tier,
 			}, "", " ")
 			_ = os.WriteFile(path, b, 0644)
 		}
@@ -197,13 +235,19 @@ func main() {
 		fmt.Printf("VIOLATION property=%s replay=%s\n", pd.id, path)
 	}
 
-	if !*noEv {
-		writeEvidence(*verif, pd, rep, *tier, seed, count, discharged, undecided, len(failing), knownMatched, time.Since(start).Seconds())
+	if !noEv {
+		writeEvidence(verif, pd, rep, tier, seed, count, discharged, undecided, len(failing), knownMatched, time.Since(start).Seconds())
 	}
-	if len(failing) > 0 {
-		os.Exit(1)
+	if multi {
+		verdict := "ok"
+		if len(failing) > 0 {
+			verdict = "fail"
+		}
+		fmt.Printf("RESULT %s %s\n", pd.id, verdict)
 	}
+	return len(failing) > 0
 }
+
 
 func progPkgs(p *Prog) int {
 	if p == nil {
